@@ -3,6 +3,7 @@
 //! note: the receiving side's acceptance tests on update_add_htlc (ChannelContext::validate_update_add_htlc): a peer HTLC that keeps the sender above the reserve we selected, within our in-flight and count limits, is not refused; anything that violates one of them is
 //! trusted: R15 (statement slicing): validate_update_add_htlc calls get_next_remote/local_commitment_stats (proved in unit u01 as get_next_commitment_stats) through the channel context; the unit extracts, on every run, its four local `if <cond> { return Err(..) }` tests with their conditions verbatim and checks them as one method of a context skeleton {holder_max_accepted_htlcs, holder_max_htlc_value_in_flight_msat}; msg/funding/stats are field skeletons; error construction replaced by tags; the two stats calls are represented by their results (Err => refused is visible in the sliced text as `?` is dropped: stated here, not claimed)
 //! trusted: assume_specification for core::cmp::max / core::cmp::min (std definitions); can_accept_incoming_htlc is extracted whole with the same kind of stubs as validate_update_fee (acc_stats / acc_max_dust uninterpreted); R9: the tuple-pattern closure `|(fee, _)| fee` is written with a named parameter
+//! trusted: R15 (statement slicing): send_htlc: the unit extracts the zero-amount test and the two tests against get_available_balances' result (proved in u01) verbatim as a function of (amount_msat, available_balances); the channel-state pre-checks and the state update are dropped and not claimed; error strings dropped (R8)
 //! trusted: validate_update_fee is extracted whole; its callees get_next_local/remote_commitment_stats (thin wrappers of the builder function proved in u01), get_dust_exposure_limiting_feerate and get_max_dust_htlc_exposure_msat are external_body stubs returning uninterpreted values (local_stats_at / remote_stats_at / max_dust_exposure); FundingScope/ChannelContext self skeletons (R5); error messages dropped (R8)
 use vstd::prelude::*;
 verus! {
@@ -162,5 +163,30 @@ impl AccCtx {
     cmp::min(self.feerate_per_kw, self.pending_update_fee.map(|(fee, _)| fee).unwrap_or(u32::MAX))
 //@end
 }
+
+// ---- the sender's own amount tests against the advertised send window (R15 slice of FundedChannel::send_htlc) ----
+pub struct AvailableBalances { pub next_outbound_htlc_limit_msat: u64, pub next_outbound_htlc_minimum_msat: u64 }
+pub enum SendFail { ZeroAmount, HTLCMinimum, HTLCMaximum }
+//@extract lightning/src/ln/channel.rs :: impl FundedChannel :: fn send_htlc
+//@rw R15
+    fn send_htlc<F: FeeEstimator, L: Logger>($params:any) -> $ret { $pre:any if amount_msat == 0 { return Err($ez); } let available_balances = $ab; $tests:any if self.context.channel_state.is_peer_disconnected() { $pd:any } $rest:any }
+//@with
+    fn send_amount_tests(amount_msat: u64, available_balances: &AvailableBalances) -> Result<(), (SendFail, u8)> {
+        if amount_msat == 0 { return Err((SendFail::ZeroAmount, 0)); }
+        $tests
+        Ok(())
+    }
+//@rw R8 *
+    LocalHTLCFailureReason::$v:ident, format!($f:any),
+//@with
+    SendFail::$v, 0,
+//@ret r
+//@ensures P C01 an-htlc-is-sent-exactly-when-its-amount-lies-inside-the-send-window-computed-by-get_available_balances
+    r is Ok <==> (amount_msat != 0 && available_balances.next_outbound_htlc_minimum_msat <= amount_msat <= available_balances.next_outbound_htlc_limit_msat),
+//@mutant amount_above_the_limit_sent
+    amount_msat > available_balances.next_outbound_htlc_limit_msat
+//@with
+    amount_msat > available_balances.next_outbound_htlc_limit_msat.saturating_add(1)
+//@end
 }
 fn main() {}
